@@ -539,3 +539,12 @@ CONTRACTS += [_chain_documented("chain_class_function_documented", "class then f
 for _c in CONTRACTS:
     if _c.func == "vf.contracts.laws:chain_class_argparse_documented":
         _c.cases[0].tier = "thorough"  # ~1000 return paths, 80 s: part of the thorough tier only
+
+import copy as _copy
+
+argparse_function_roundtrip_documented = _copy.copy(argparse_function_roundtrip)
+argparse_function_roundtrip_documented.func = "vf.contracts.laws:argparse_function_roundtrip_documented"
+argparse_function_roundtrip_documented.note = ("the same composite and clauses as argparse_function_roundtrip on the path the emitted (documented) function really takes: get_docstring answers "
+                                               "SOME text, so parse.argparse_ast skips the docstring statement (body[1:]) and hands the text to the (opaque) docstring parser")
+argparse_function_roundtrip_documented.opaque = {"docstring": {"ret": "str"}, "indent": {"ret": "str"}, "get_docstring": {"ret": "str"}, "parse_docstring": {"ret": ("obj", None)}}
+CONTRACTS.append(argparse_function_roundtrip_documented)
